@@ -8,6 +8,7 @@ import Cog.Builder.Safe
 import Cog.Builder.Witness
 import Cog.Builder.Str
 import Cog.Builder.Veneers
+import Cog.Builder.WT
 namespace Cog.Drv
 open Cog Cog.IR Cog.Builder
 
@@ -43,6 +44,15 @@ def veneerLine (rest : String) : String :=
       let (files, n) := Builder.Vir.numberFiles files 1
       Builder.Vir.outcomeOut (rewrite files lang ss bs n)
     | _, _, _ => "bad-vir"
+  | _ => "bad-sexp"
+
+/-- `wt <schemas> <builders>`: the decidable well-typedness predicate, one `t`/`f` per builder -/
+def wtLine (rest : String) : String :=
+  match Sexp.parseMany rest with
+  | some [s, b] =>
+    match IR.Vir.schemasIn s, Builder.Vir.buildersIn b with
+    | some ss, some bs => String.ofList (bs.map fun b => if WT ss b then 't' else 'f')
+    | _, _ => "bad-vir"
   | _ => "bad-sexp"
 
 /-- `c16witness <name>`: VIR text of the Lean-side counterexample witness -/
